@@ -239,7 +239,26 @@ def run_fit(ctx, rng, idx):
     tmp = tempfile.mkdtemp(prefix='vf-c16-', dir=os.environ.get('VF_RUNDIR'))
     try:
         path = os.path.join(tmp, 'model')
-        m.save(path)
+        if idx % 4 == 1:
+            # an earlier, different model was saved under the same path: the
+            # second save either refuses or replaces it - what is loaded
+            # afterwards is never the earlier model
+            try:
+                with warnings.catch_warnings():
+                    warnings.simplefilter('ignore')
+                    other = MSM(lag_time=lag + 1, method=builders.normalize,
+                                trim=False)
+                    other.fit(a)
+                    other.save(path)
+                ctx.count('saves_onto_existing_model')
+            except Exception:  # noqa
+                shutil.rmtree(path, ignore_errors=True)
+        try:
+            m.save(path)
+        except (FileExistsError, OSError):
+            ctx.count('save_refused_existing_path')
+            shutil.rmtree(path, ignore_errors=True)
+            m.save(path)
         m2 = MSM.load(path)
         ctx.count('roundtrips')
         if m2.lag_time != m.lag_time or m2.trim != m.trim or \
